@@ -108,6 +108,7 @@ def search(ctx, budget):
         if r[0] == 'bad':
             ctx.failures.append(({'stage': 'pairs', 'seed': j[0], 'root': j[1], 'text': r[2]}, r[1]))
     cs = list(getattr(ctx, '_docs', [])) + (cases(ctx, ctx.n(700, 40000) * (budget - 1)) if budget > 1 else [])
+    cs.append((stages.URIS[0], 'doc', '', 'x1z\nATTACHMENT a2z\n  one3z\n  ANNEXURE b4z\n    two5z\n  three6z\n'))      # witness of known finding F20
     for c, r in zip(cs, impl.pmap(_oracle, cs, chunk=8)):
         ctx.evaluations += 1; ctx.count('oracle_' + r[0])
         if r[0] == 'bad':
@@ -121,7 +122,10 @@ def probe_disagreement(ctx, stage, case):
         r = _oracle((case['uri'], case['root'], case['prefix'], case['text']))
         if r[0] == 'bad': ctx.failures.append((dict(case, stage='e2e'), r[1]))
 
-CLASSIFIERS = {}
+def _nested_att(case, desc):
+    return desc == 'token order changed' and re.search(r'^[ \t]+(ATTACHMENT|APPENDIX|SCHEDULE|ANNEXURE)\b', case.get('text', ''), re.M) is not None
+
+CLASSIFIERS = {'nested_attachment_reordered': _nested_att}
 
 def replay(obj):
     case = obj.get('case') or (obj.get('disagreements') or [{}])[0].get('case')
